@@ -20,9 +20,15 @@
 #define MAXNEST 3
 static int expect_no_diag;
 #define VERIF_ON_EXIT(code) VASSERT(!expect_no_diag, "no diagnostic on a well-formed directive sequence")
+#define VERIF_PACKED_SPELLING 1
 #include "common.h"
 #include "pp_env.h"
+// strndup is only used by #undef / #define / #include "..." handling: unreachable with this alphabet
+// (asserted), and its character copy through a symbolic Token pointer is very slow in cbmc 6.11
+static char *verif_unreach_strndup(const char *s, size_t n);
+#define strndup(s, n) verif_unreach_strndup(s, n)
 #include "preprocess.c"
+#undef strndup
 #include "pp_env_impl.h"
 
 enum { I_IF, I_IFDEF, I_IFNDEF, I_ELIF, I_ELSE, I_ENDIF, I_TEXT, I_NKINDS };
@@ -46,6 +52,7 @@ static Token *mk(int line, TokenKind k, char *sp, int len, bool bol) {
   Token *t = calloc(1, sizeof(Token));
   t->kind = k; t->loc = sp; t->len = len; t->at_bol = bol; t->has_space = !bol;
   t->file = &verif_file; t->line_no = line;    // line_no carries the line index (preprocess2 never writes it)
+  t->val = verif_spell(sp);                    // packed spelling (see pp_env_impl.h)
   if (last_tok) last_tok->next = t; else first_tok = t;
   last_tok = t;
   return t;
@@ -65,7 +72,6 @@ static Token *build(void) {
     if (kind == I_IF || kind == I_ELIF) {
       mk(i, TK_IDENT, kind == I_IF ? "if" : "elif", kind == I_IF ? 2 : 4, false);
       third_tok[i] = mk(i, TK_PP_NUM, IN.it[i].bit ? "1" : "0", 1, false);
-      third_tok[i]->val = IN.it[i].bit;
     } else if (kind == I_IFDEF || kind == I_IFNDEF) {
       mk(i, TK_IDENT, kind == I_IFDEF ? "ifdef" : "ifndef", kind == I_IFDEF ? 5 : 6, false);
       third_tok[i] = mk(i, TK_IDENT, IN.it[i].name ? "Y" : "X", 1, false);
@@ -84,7 +90,14 @@ static Token *build(void) {
 long stub_eval_const_expr(Token **rest, Token *tok) {
   Token *t = tok->next;
   *rest = t->next;
-  return t->val;
+  return t->val == verif_spell("1");
+}
+// find_macro replacement (same contract, reads the packed spelling instead of the characters)
+Macro *stub_find_macro(Token *tok) {
+  if (tok->kind != TK_IDENT) return NULL;
+  if (tok->val == verif_spell("X")) return hashmap_get(&macros, "X");
+  if (tok->val == verif_spell("Y")) return hashmap_get(&macros, "Y");
+  return NULL;
 }
 // Branches of preprocess2 that this alphabet cannot reach are cut by stubs that ASSERT
 // unreachability (the cut is checked, not assumed); they would otherwise drag the recursive
@@ -95,8 +108,9 @@ long stub_eval_const_expr(Token **rest, Token *tok) {
 #define UNREACH(msg) do { VASSERT(0, msg); __CPROVER_assume(0); } while (0)
 #endif
 static Macro dummy_macro = {.name = "X", .is_objlike = true};
+static char *verif_unreach_strndup(const char *s, size_t n) { UNREACH("no #undef/#define/#include in this alphabet"); return 0; }
 bool stub_expand_macro(Token **rest, Token *tok) {
-  if (tok->kind == TK_IDENT && tok->len == 1 && (tok->loc[0] == 'X' || tok->loc[0] == 'Y'))
+  if (tok->kind == TK_IDENT && (tok->val == verif_spell("X") || tok->val == verif_spell("Y")))
     UNREACH("macro names occur only as #ifdef/#ifndef operands in this alphabet");
   return false;
 }
@@ -187,8 +201,13 @@ static int scan_start(Token *tok) {
   if (i >= NITEMS) return NITEMS;
   return tok == line_tok[i] ? i : i + 1;
 }
-Token *spec1(Token *tok) { return spec1_from(scan_start(tok)); }
-Token *spec2(Token *tok) { return spec2_from(scan_start(tok)); }
+// the contracts are tabulated once per input (spec_tabulate) so that each call costs one lookup
+static Token *spec1_tab[NITEMS + 1], *spec2_tab[NITEMS + 1];
+static void spec_tabulate(void) {
+  for (int i = 0; i <= NITEMS; i++) { spec1_tab[i] = spec1_from(i); spec2_tab[i] = spec2_from(i); }
+}
+Token *spec1(Token *tok) { return spec1_tab[scan_start(tok)]; }
+Token *spec2(Token *tok) { return spec2_tab[scan_start(tok)]; }
 
 static void run_select(bool allow_junk) {
   HAVOC_IN();
@@ -198,6 +217,7 @@ static void run_select(bool allow_junk) {
   if (IN.defined[0]) hashmap_put(&macros, "X", &dummy_macro);
   if (IN.defined[1]) hashmap_put(&macros, "Y", &dummy_macro);
   Token *in = build();
+  spec_tabulate();
   expect_no_diag = 1;
   Token *out = NULL;
   TRY(out = preprocess2(in));
@@ -207,14 +227,14 @@ static void run_select(bool allow_junk) {
   bool junk_seen = false;
   for (int i = 0; i < NITEMS; i++) {
     if (junk_seen) continue;
-    if (t->kind != TK_EOF && t->loc == sp_J) { junk_seen = true; continue; }
+    if (t->kind != TK_EOF && t->val == verif_spell("J")) { junk_seen = true; continue; }
     if (ref_sel[i]) {
       VASSERT(t == line_tok[i], "every selected text line is emitted, in order, and nothing else");
       if (t != line_tok[i]) return;
       t = t->next;
     }
   }
-  if (junk_seen || (t->kind != TK_EOF && t->loc == sp_J))
+  if (junk_seen || (t->kind != TK_EOF && t->val == verif_spell("J")))
     VASSERT(0, "trailing tokens on a directive line are never emitted");
   else
     VASSERT(t->kind == TK_EOF, "no text of a skipped group and no directive token is emitted");
@@ -232,6 +252,7 @@ void h_skip1(void) {
   bool wf = reference();
   __CPROVER_assume(wf);
   build();
+  spec_tabulate();
   int s = IN.start;
   __CPROVER_assume(s < NITEMS);
   Token *start = line_tok[s];
@@ -250,6 +271,7 @@ void h_skip2(void) {
   bool wf = reference();
   __CPROVER_assume(wf);
   build();
+  spec_tabulate();
   int s = IN.start;
   __CPROVER_assume(s < NITEMS && IS_OPENER(IN.it[s].kind));
   expect_no_diag = 1;
